@@ -10,7 +10,7 @@ LEVEL = 'model_checking'
 RULE = ('E1 enumeration of universe trees: depth 1-3, 2 or 3 cells per universe split by planes, one '
         'universe reused in two containers (same / different / one transformation), per-level '
         'transformation in {none, translation, 90deg about z, 30deg about z, 90deg about x} spelled by '
-        'number / inline / inline-3 / starred, container TRCL with and without a FILL transformation, '
+        'number / inline / inline-3 / starred / inline typed as .5 -.5 +1, container TRCL with and without a FILL transformation, '
         'universe cells with their own TRCL, options default / --max-inline-score 0 / always-inline; '
         'oracle = reference locate() + provenance chain at one witness per cell of the joint plane '
         'arrangement (complete); non-trivial = at least two distinct provenance labels realised; '
@@ -38,9 +38,9 @@ def motions():
         'rz90': M((1.0, -0.5, 0.0), RZ90.T),
         'rz30': M((-1.0, 0.5, 0.25), RZ30.T),
         'rx90': M((-1.0, 0.5, 0.25), RX90.T),
-        't2': M((-2.0, 1.5, 0.5)),
+        't2': M((-0.5, 1.5, 0.5)),
         'id': M((0.0, 0.0, 0.0)),          # an explicit identity transformation is still a transformation
-        'rz90b': M((-2.0, 1.5, 0.5), RZ90.T),
+        'rz90b': M((-0.5, 1.5, 0.5), RZ90.T),
     }
 
 
@@ -56,7 +56,7 @@ def make_tr(deck, key, spelling, number):
     return Tr(m, spelling)
 
 
-SPELL = ['inline', 'number', 'star', 'inline3', 'numstar']
+SPELL = ['inline', 'number', 'star', 'inline3', 'numstar', 'inline-dot']
 TKEYS = ['none', 't', 'rz90', 'rz30', 'rx90', 't2', 'id', 'rz90b']
 
 
@@ -86,7 +86,7 @@ def build(ch, with_options=True):
     sp10 = ch.choose('sp10', SPELL) if t10 != 'none' else 'inline'
     sp11 = ch.choose('sp11', SPELL) if t11 != 'none' else 'inline'
     trcl11 = ch.choose('trcl11', ['none', 't', 'rz90', 'rz30'])
-    sptrcl = ch.choose('sptrcl', ['inline', 'number', 'star']) if trcl11 != 'none' else 'inline'
+    sptrcl = ch.choose('sptrcl', ['inline', 'number', 'star', 'inline-dot']) if trcl11 != 'none' else 'inline'
     utrcl = ch.choose('utrcl', ['none', 't', 'rz90'])
     t2 = ch.choose('t2', ['none', 't2', 'rz90', 'rx90', 'id']) if depth >= 2 else 'none'
     t3 = ch.choose('t3', ['none', 't', 'rz30']) if depth >= 3 else 'none'
